@@ -8,7 +8,10 @@ import (
 	"bytes"
 	"fmt"
 	"io"
+	"os"
+	"path/filepath"
 	"sort"
+	"strings"
 	"sync"
 
 	"github.com/blugelabs/bluge/index"
@@ -302,5 +305,278 @@ func (d *SimDir) OpenHandles() []string {
 		out = append(out, n)
 	}
 	sort.Strings(out)
+	return out
+}
+
+// ---------------------------------------------------------------------------------------------
+// RecDir: the real FileSystemDirectory behind the same recording / gating / fault-injection
+// interface as SimDir.  Faults are injected at the item writer (the io.Writer handed to WriteTo
+// fails before any byte, after a partial write, or after the full write) so that the directory's
+// own error paths run.  After every Persist that reports success the file is read back.
+
+type RecDir struct {
+	Inner   *index.FileSystemDirectory
+	Path    string
+	Rec     *Recorder
+	mu      sync.Mutex
+	nops    int
+	Gate    func(op Op)
+	FaultAt func(op Op) *Fault
+	handles int
+	Open    map[int]string
+	locked  bool
+}
+
+func NewRecDir(path string, rec *Recorder) *RecDir {
+	return &RecDir{Inner: index.NewFileSystemDirectory(path), Path: path, Rec: rec, Open: map[int]string{}}
+}
+
+func (d *RecDir) begin(op, item string, id uint64) (Op, *Fault) {
+	d.mu.Lock()
+	o := Op{N: d.nops, Op: op, Item: item, ID: id}
+	d.nops++
+	d.mu.Unlock()
+	if d.Gate != nil {
+		d.Gate(o)
+	}
+	var f *Fault
+	if d.FaultAt != nil {
+		f = d.FaultAt(o)
+	}
+	return o, f
+}
+
+func (d *RecDir) fileName(kind string, id uint64) string {
+	return filepath.Join(d.Path, fmt.Sprintf("%012x", id)+kind)
+}
+
+func (d *RecDir) Setup(readOnly bool) error { return d.Inner.Setup(readOnly) }
+
+func (d *RecDir) List(kind string) ([]uint64, error) {
+	_, f := d.begin("list", kind, 0)
+	if f != nil {
+		d.Rec.Add(&Event{Kind: "list-err", Item: kind, Err: f.Err.Error()})
+		return nil, f.Err
+	}
+	rv, err := d.Inner.List(kind)
+	if err != nil {
+		d.Rec.Add(&Event{Kind: "list-err", Item: kind, Err: err.Error()})
+		return nil, err
+	}
+	d.Rec.Add(&Event{Kind: "list", Item: kind, Note: fmt.Sprint(rv)})
+	return rv, nil
+}
+
+type recHandle struct {
+	d     *RecDir
+	n     int
+	name  string
+	inner io.Closer
+	once  sync.Once
+}
+
+func (h *recHandle) Close() error {
+	var err error
+	closed := false
+	h.once.Do(func() {
+		closed = true
+		h.d.mu.Lock()
+		delete(h.d.Open, h.n)
+		h.d.mu.Unlock()
+		h.d.Rec.Add(&Event{Kind: "close-handle", Note: h.name, ID: uint64(h.n)})
+		if h.inner != nil {
+			err = h.inner.Close()
+		}
+	})
+	if !closed {
+		h.d.Rec.Add(&Event{Kind: "double-close", Note: h.name, ID: uint64(h.n)})
+	}
+	return err
+}
+
+func (d *RecDir) Load(kind string, id uint64) (*segment.Data, io.Closer, error) {
+	_, f := d.begin("load", kind, id)
+	if f != nil {
+		d.Rec.Add(&Event{Kind: "load-err", Item: kind, ID: id, Err: f.Err.Error()})
+		return nil, nil, f.Err
+	}
+	data, closer, err := d.Inner.Load(kind, id)
+	if err != nil {
+		d.Rec.Add(&Event{Kind: "load-err", Item: kind, ID: id, Err: err.Error()})
+		return nil, nil, err
+	}
+	d.mu.Lock()
+	d.handles++
+	h := &recHandle{d: d, n: d.handles, name: key(kind, id), inner: closer}
+	d.Open[h.n] = h.name
+	d.mu.Unlock()
+	d.Rec.Add(&Event{Kind: "load-ok", Item: kind, ID: id, Note: fmt.Sprint(h.n)})
+	return data, h, nil
+}
+
+// faultyWriterTo captures what the item writes and fails as planned.
+type faultyWriterTo struct {
+	inner   index.WriterTo
+	fault   *Fault
+	buf     bytes.Buffer
+	started func()
+}
+
+type teeWriter struct {
+	w     io.Writer
+	buf   *bytes.Buffer
+	limit int // -1 = unlimited; fail once this many bytes went through
+	err   error
+}
+
+func (t *teeWriter) Write(p []byte) (int, error) {
+	if t.limit >= 0 && t.buf.Len()+len(p) > t.limit {
+		n := t.limit - t.buf.Len()
+		if n < 0 {
+			n = 0
+		}
+		if n > 0 {
+			m, _ := t.w.Write(p[:n])
+			t.buf.Write(p[:m])
+		}
+		return n, t.err
+	}
+	n, err := t.w.Write(p)
+	t.buf.Write(p[:n])
+	return n, err
+}
+
+func (f *faultyWriterTo) WriteTo(w io.Writer, closeCh chan struct{}) (int64, error) {
+	if f.started != nil {
+		f.started()
+	}
+	tw := &teeWriter{w: w, buf: &f.buf, limit: -1}
+	if f.fault != nil && f.fault.When == "partial" {
+		// learn the size with a dry run into memory, then fail half way through the real write
+		var dry bytes.Buffer
+		if _, err := f.inner.WriteTo(&dry, closeCh); err != nil {
+			return 0, err
+		}
+		tw.limit = dry.Len() / 2
+		tw.err = f.fault.Err
+	}
+	n, err := f.inner.WriteTo(tw, closeCh)
+	if err == nil && f.fault != nil && f.fault.When == "after" {
+		return n, f.fault.Err
+	}
+	return n, err
+}
+
+func (d *RecDir) Persist(kind string, id uint64, w index.WriterTo, closeCh chan struct{}) error {
+	_, f := d.begin("persist", kind, id)
+	if f != nil && f.When == "before" {
+		d.Rec.Add(&Event{Kind: "persist-err", Item: kind, ID: id, Err: f.Err.Error(), Note: "before"})
+		return f.Err
+	}
+	var startEv *Event
+	fw := &faultyWriterTo{inner: w, fault: f}
+	fw.started = func() { startEv = d.Rec.Add(&Event{Kind: "persist-start", Item: kind, ID: id}) }
+	err := d.Inner.Persist(kind, id, fw, closeCh)
+	if startEv != nil {
+		startEv.Bytes = append([]byte{}, fw.buf.Bytes()...)
+	}
+	if err != nil {
+		d.Rec.Add(&Event{Kind: "persist-err", Item: kind, ID: id, Err: err.Error()})
+		if _, serr := os.Stat(d.fileName(kind, id)); serr == nil {
+			d.Rec.Add(&Event{Kind: "oracle", Note: "persist-failed-but-file-left", Item: kind, ID: id})
+		}
+		return err
+	}
+	if f != nil && f.When != "before" {
+		// the item writer failed, yet the directory reported success
+		d.Rec.Add(&Event{Kind: "oracle", Note: "persist-ok-although-writer-failed", Item: kind, ID: id})
+	}
+	got, rerr := os.ReadFile(d.fileName(kind, id))
+	if rerr != nil || !bytes.Equal(got, fw.buf.Bytes()) {
+		d.Rec.Add(&Event{Kind: "oracle", Note: "persist-ok-but-file-differs", Item: kind, ID: id})
+	}
+	d.Rec.Add(&Event{Kind: "persist-ok", Item: kind, ID: id})
+	return nil
+}
+
+func (d *RecDir) Remove(kind string, id uint64) error {
+	_, f := d.begin("remove", kind, id)
+	if f != nil {
+		d.Rec.Add(&Event{Kind: "remove-err", Item: kind, ID: id, Err: f.Err.Error()})
+		return f.Err
+	}
+	err := d.Inner.Remove(kind, id)
+	if err != nil {
+		d.Rec.Add(&Event{Kind: "remove-err", Item: kind, ID: id, Err: err.Error()})
+		return err
+	}
+	d.Rec.Add(&Event{Kind: "remove-ok", Item: kind, ID: id})
+	return nil
+}
+
+func (d *RecDir) Stats() (uint64, uint64) { return d.Inner.Stats() }
+func (d *RecDir) Sync() error             { return d.Inner.Sync() }
+
+func (d *RecDir) Lock() error {
+	err := d.Inner.Lock()
+	if err != nil {
+		d.Rec.Add(&Event{Kind: "lock-err"})
+		return err
+	}
+	d.mu.Lock()
+	d.locked = true
+	d.mu.Unlock()
+	d.Rec.Add(&Event{Kind: "lock"})
+	return nil
+}
+
+func (d *RecDir) Unlock() error {
+	err := d.Inner.Unlock()
+	d.mu.Lock()
+	d.locked = false
+	d.mu.Unlock()
+	d.Rec.Add(&Event{Kind: "unlock"})
+	return err
+}
+
+func (d *RecDir) Locked() bool {
+	d.mu.Lock()
+	defer d.mu.Unlock()
+	return d.locked
+}
+
+func (d *RecDir) OpenHandles() []string {
+	d.mu.Lock()
+	defer d.mu.Unlock()
+	var out []string
+	for _, n := range d.Open {
+		out = append(out, n)
+	}
+	sort.Strings(out)
+	return out
+}
+
+// Image reads the directory as a reopening process would find it (same keys as SimDir.Image).
+func (d *RecDir) Image() map[string][]byte {
+	out := map[string][]byte{}
+	ents, err := os.ReadDir(d.Path)
+	if err != nil {
+		return out
+	}
+	for _, e := range ents {
+		name := e.Name()
+		ext := filepath.Ext(name)
+		if ext != ".snp" && ext != ".seg" {
+			continue
+		}
+		var id uint64
+		if _, err := fmt.Sscanf(strings.TrimSuffix(name, ext), "%x", &id); err != nil {
+			continue
+		}
+		b, err := os.ReadFile(filepath.Join(d.Path, name))
+		if err == nil {
+			out[key(ext, id)] = b
+		}
+	}
 	return out
 }
